@@ -5,6 +5,7 @@
   suffix) is preserved by every successful call; over a history this is induction over the call list.
 -/
 import Proofs.WF
+import Proofs.Short
 import Facts.Generated
 namespace C15
 open Esdt
@@ -30,64 +31,55 @@ theorem canon_entry_decodes (A : Accts) (hC : Canon A) (a k : Bytes) (hk : TokKe
   · obtain ⟨v, hv, hpos⟩ := hwf.value
     exact ⟨t, v, h, hv, hpos, hwf.key⟩
 
-/-- FULL for 22 of the 23 functions (one step of any history): a successful call on a well-formed state leaves a
-    well-formed state, provided the values it leaves in storage are shorter than 2^63 bytes (Go slices cannot be longer;
-    the bound is what lets the freshly written canonical encodings be read back).
-    (Self-transfers of ESDTTransfer on one shard are excepted: see `Esdt.canon_esdtTransfer`.) -/
-theorem wf_step (f : FnId) (hf : f ≠ .multiTransfer) (env : Env) (c : Call) (ctx ctx' : Ctx) (out : VMOutput)
-    (hC : Canon ctx.accts) (hS : Short ctx'.accts)
-    (hself : f = .esdtTransfer → c.caller ≠ c.rcv)
+/-- FULL (one step of any history, all 23 functions): a successful call on a well-formed state whose stored values are
+    shorter than 2^63 bytes, with arguments shorter than 2^63 bytes (Go slices cannot be longer), leaves such a state
+    (`short_step`: every value a function stores is a marshalled entry, a flag pair, a counter, an empty value or one of
+    the call's own arguments).  Entries re-read inside one call (same-shard self-transfers, repeated items of a multi
+    transfer) are covered: the intermediate states are short as well, so what was just written reads back. -/
+theorem wf_step (f : FnId) (env : Env) (c : Call) (ctx ctx' : Ctx) (out : VMOutput)
+    (hC : Canon ctx.accts) (hS0 : Short ctx.accts) (ha : ArgsShort c)
     (hreach : c.caller = c.rcv → present env.nshards env.self c.caller = true)
-    (h : exec env f c ctx = .ok (out, ctx')) : Canon ctx'.accts := by
-  refine CanonM.toCanon ?_ hS
+    (h : exec env f c ctx = .ok (out, ctx')) : Canon ctx'.accts ∧ Short ctx'.accts := by
+  have hS : Short ctx'.accts := short_step f env c ctx ctx' out ha hS0 h
+  refine ⟨?_, hS⟩
   unfold exec at h
   cases f <;> simp only [runFn] at h
-  · exact canon_claimDeveloperRewards env c ctx ctx' out hC h
-  · exact canon_changeOwnerAddress env c ctx ctx' out hC h
-  · exact canon_setUserName env c ctx ctx' out hC h
-  · exact canon_saveKeyValue env c ctx ctx' out hC h
-  · exact canon_esdtPause env c ctx ctx' out true hC h
-  · exact canon_esdtPause env c ctx ctx' out false hC h
-  · exact canon_esdtTransfer env c ctx ctx' out hC (hself rfl) h
-  · exact canon_esdtBurn env c ctx ctx' out hC h
-  · exact canon_toggleFreeze env c ctx ctx' out .freeze (by decide) hC h
-  · exact canon_toggleFreeze env c ctx ctx' out .unfreeze (by decide) hC h
-  · exact canon_wipe env c ctx ctx' out hC h
-  · exact canon_esdtRoles env c ctx ctx' out false hC h
-  · exact canon_esdtRoles env c ctx ctx' out true hC h
-  · exact canon_localBurn env c ctx ctx' out hC h
-  · exact canon_localMint env c ctx ctx' out hC h
-  · exact canon_addQuantity env c ctx ctx' out hC h
-  · exact canon_nftBurn env c ctx ctx' out hC h
-  · exact canon_nftCreate env c ctx ctx' out hC h
-  · exact canon_nftTransfer env c ctx ctx' out hC hreach h
-  · exact canon_createRoleTransfer env c ctx ctx' out hC h
-  · exact canon_updateAttributes env c ctx ctx' out hC h
-  · exact canon_addURI env c ctx ctx' out hC h
-  · exact absurd rfl hf
-
-/-- PARTIAL for MultiESDTNFTTransfer: the sender-side path (all items, same-shard and cross-shard destination) preserves
-    the invariant — every item writes through `saveESDTNFTToken`, whose stored form is well-formed by construction.
-    Not a theorem: the destination-side path with fungible items (`addToESDTBalance` re-reads entries written earlier in
-    the same call); decided by the well-formedness oracle on generated histories. -/
-theorem wf_step_multi_sender_partial (env : Env) (c : Call) (ctx ctx' : Ctx) (out : VMOutput) (hC : Canon ctx.accts)
-    (hS : Short ctx'.accts) (hself : c.caller = c.rcv) (h : exec env .multiTransfer c ctx = .ok (out, ctx')) :
-    Canon ctx'.accts := by
-  unfold exec at h; simp only [runFn] at h
-  exact ((canon_multiTransfer_senderPath env c ctx hC.toM hself).elim h).toCanon hS
+  · exact (canon_claimDeveloperRewards env c ctx ctx' out hC h).toCanon hS
+  · exact (canon_changeOwnerAddress env c ctx ctx' out hC h).toCanon hS
+  · exact (canon_setUserName env c ctx ctx' out hC h).toCanon hS
+  · exact (canon_saveKeyValue env c ctx ctx' out hC h).toCanon hS
+  · exact (canon_esdtPause env c ctx ctx' out true hC h).toCanon hS
+  · exact (canon_esdtPause env c ctx ctx' out false hC h).toCanon hS
+  · exact (canon_esdtTransfer_all env c ctx ctx' out hC hS0 h).toCanon hS
+  · exact (canon_esdtBurn env c ctx ctx' out hC h).toCanon hS
+  · exact (canon_toggleFreeze env c ctx ctx' out .freeze (by decide) hC h).toCanon hS
+  · exact (canon_toggleFreeze env c ctx ctx' out .unfreeze (by decide) hC h).toCanon hS
+  · exact (canon_wipe env c ctx ctx' out hC h).toCanon hS
+  · exact (canon_esdtRoles env c ctx ctx' out false hC h).toCanon hS
+  · exact (canon_esdtRoles env c ctx ctx' out true hC h).toCanon hS
+  · exact (canon_localBurn env c ctx ctx' out hC h).toCanon hS
+  · exact (canon_localMint env c ctx ctx' out hC h).toCanon hS
+  · exact (canon_addQuantity env c ctx ctx' out hC h).toCanon hS
+  · exact (canon_nftBurn env c ctx ctx' out hC h).toCanon hS
+  · exact (canon_nftCreate env c ctx ctx' out hC h).toCanon hS
+  · exact (canon_nftTransfer env c ctx ctx' out hC hreach h).toCanon hS
+  · exact (canon_createRoleTransfer env c ctx ctx' out hC h).toCanon hS
+  · exact (canon_updateAttributes env c ctx ctx' out hC h).toCanon hS
+  · exact (canon_addURI env c ctx ctx' out hC h).toCanon hS
+  · exact (canon_multiTransfer env c ctx hC hS0).elim h
 
 /-- the empty state is well-formed -/
 theorem wf_init : Canon [] := fun _ _ _ _ => Or.inl rfl
 
-/-- histories of the 22 functions -/
+/-- histories of built-in calls (all 23 functions) -/
 structure Step where
   f : FnId
   env : Env
   c : Call
 
+/-- transaction reachability (sender-side paths run on the sender's shard) and arguments that are Go slices -/
 def StepOK (s : Step) : Prop :=
-  s.f ≠ .multiTransfer ∧ (s.f = .esdtTransfer → s.c.caller ≠ s.c.rcv) ∧
-  (s.c.caller = s.c.rcv → present s.env.nshards s.env.self s.c.caller = true)
+  (s.c.caller = s.c.rcv → present s.env.nshards s.env.self s.c.caller = true) ∧ ArgsShort s.c
 
 /-- state after running the steps in order, failed calls rolled back (Appendix C) -/
 def run : List Step → Accts → Accts
@@ -97,44 +89,22 @@ def run : List Step → Accts → Accts
     | .ok (_, ctx') => run rest ctx'.accts
     | _ => run rest A
 
-/-- every state the run passes through keeps its stored values shorter than 2^63 bytes -/
-def ShortAlong : List Step → Accts → Prop
-  | [], A => Short A
-  | s :: rest, A =>
-    Short A ∧
-    match exec s.env s.f s.c { accts := A } with
-    | .ok (_, ctx') => ShortAlong rest ctx'.accts
-    | _ => ShortAlong rest A
-
-theorem ShortAlong.head {steps : List Step} {A : Accts} (h : ShortAlong steps A) : Short A := by
-  cases steps with
-  | nil => exact h
-  | cons s rest => exact h.1
-
-/-- FULL (history level, 22 functions): every reachable state is well-formed -/
+/-- FULL (history level, all 23 functions): every reachable state is well-formed (and keeps its stored values shorter
+    than 2^63 bytes) — hypotheses on the initial state and on the calls only -/
 theorem wf_history (steps : List Step) (hok : ∀ s ∈ steps, StepOK s) :
-    ∀ A, Canon A → ShortAlong steps A → Canon (run steps A) := by
+    ∀ A, Canon A → Short A → Canon (run steps A) ∧ Short (run steps A) := by
   induction steps with
-  | nil => intro A h _; exact h
+  | nil => intro A h hs; exact ⟨h, hs⟩
   | cons s rest ih =>
-    intro A h hr
+    intro A h hs
     have ih' := ih (fun s' hs' => hok s' (by simp [hs']))
-    obtain ⟨h1, h2, h3⟩ := hok s (by simp)
-    unfold ShortAlong at hr
-    obtain ⟨_, hrest⟩ := hr
+    obtain ⟨h3, h4⟩ := hok s (by simp)
     unfold run
     split
     · rename_i out ctx' he
-      rw [he] at hrest
-      exact ih' _ (wf_step s.f h1 s.env s.c { accts := A } ctx' out h hrest.head h2 h3 he) hrest
-    · rename_i hne
-      have : ShortAlong rest A := by
-        revert hrest
-        cases hx : exec s.env s.f s.c { accts := A } with
-        | ok p => exact absurd hx (hne p.1 p.2)
-        | err e => intro hh; exact hh
-        | panic => intro hh; exact hh
-      exact ih' _ h this
+      obtain ⟨hc', hs'⟩ := wf_step s.f s.env s.c { accts := A } ctx' out h hs h4 h3 he
+      exact ih' _ hc' hs'
+    · exact ih' _ h hs
 
 /-! non-vacuity: a state with one protocol-written entry is well-formed and short; a mint on it succeeds -/
 def sampleEnv : Env := { self := 0, nshards := 1, payable := fun _ => .yes, dns := [], nameChange := false, gas := {}, active := true }
